@@ -4858,7 +4858,7 @@ class CiscoRange(UserList):
                 continue
 
         # De-duplicate the list of integers and return it...
-        return list(set([int(ii) for ii in integers]))
+        return sorted(set([int(ii) for ii in integers]))
 
     # This method is on CiscoRange()
     @logger.catch(reraise=True)
